@@ -48,11 +48,11 @@ func (e *Engine) quiescentForShim() bool {
 }
 
 type totals struct {
-	nodeAlloc, nodeOcc map[string]res.R
+	nodeAlloc, nodeOcc       map[string]res.R
 	appAlloc, appPH, appPend map[string]res.R
-	appQueue map[string]string
-	queueAlloc, queuePend map[string]res.R
-	userRoot map[string]res.R
+	appQueue                 map[string]string
+	queueAlloc, queuePend    map[string]res.R
+	userRoot                 map[string]res.R
 }
 
 func totalsOf(w *world.World) *totals {
